@@ -11,22 +11,35 @@ from props import _util
 
 ID = 'C13'
 LEAN_TARGETS = ['TexSoupProofs.Properties.C13Lines', 'TexSoupProofs.Properties.C13Positions', 'TexSoupProofs.Properties.C19',
-                'TexSoupProofs.Properties.C13Regex']
+                'TexSoupProofs.Reader.LeafSlices', 'TexSoupProofs.Properties.C13Regex']
 THEOREMS = ['TexSoup.C13Lines.' + n for n in (
     'lineStart_no_lf', 'lineStart_after_lf', 'charPosToLine_correct_le', 'charPosToLine_correct',
     'charPosToLine_correct_at_end', 'charPosToLine_beyond_end',
     'Legacy.charPosToLine_wrong_at_lf', 'Legacy.charPosToLine_wrong_at_every_lf')] + [
     'TexSoup.C13.node_positions', 'TexSoup.C13.node_positions_nonempty', 'TexSoup.C13.node_first_char',
-    'TexSoup.C13.intended_statement_false', 'TexSoup.token_offsets', 'TexSoup.token_offsets_bounded', 'TexSoup.C13.match_offset']
+    'TexSoup.C13.intended_statement_false', 'TexSoup.token_offsets', 'TexSoup.token_offsets_bounded', 'TexSoup.C13.match_offset',
+    'TexSoup.parse_sliced', 'TexSoup.C13.text_leaf_slice', 'TexSoup.C13.text_leaf_slice_node', 'TexSoup.C13.match_in_slice',
+    'TexSoup.C13.mem_searchRegexIn', 'TexSoup.C13.search_regex_offsets_leaf', 'TexSoup.C13.search_regex_offsets',
+    'TexSoup.C13.search_regex_offsets_all', 'TexSoup.C13.search_regex_bare_argument']
 PARTIAL = ['clause (i) is proved in the form: at the recorded offset of every node the source carries the first token of '
            'that node and the node\'s text starts with it (C13.node_positions, node_first_char); the only exception is the '
            'empty text child of an empty verbatim-like environment (C13.intended_statement_false); nodes made up for a bare '
            'argument (position -1) are outside the grammar and skipped',
-           'clause (iii) "every match reported by search_regex carries the true source offset": token offsets are proved '
-           '(token_offsets); the regular-expression engine is trusted, not modelled: explored by the oracle']
+           'clause (iii) "every match reported by search_regex carries the true source offset" is proved for every parsed '
+           'tree (strict and tolerant, source without NUL/DEL) with the regular-expression engine as a parameter '
+           '(C13.search_regex_offsets, model lean/TexSoupModel/SearchRegex.lean): every text leaf of the text view with a '
+           'recorded position carries exactly the source slice at that position (C13.text_leaf_slice; a verbatim body is a '
+           'run of consecutive tokens, parse_sliced; the empty verbatim body is the empty slice), and the offset '
+           'arithmetic position + match.start() is proved (C13.match_in_slice). Exception: leaves with position -1 (the '
+           'text of the group made up for a bare-token argument) are excluded, necessarily so '
+           '(C13.search_regex_bare_argument). The engine itself (which spans re.finditer returns) stays trusted and is '
+           'explored by the oracle']
 TRUSTED = ['hand-written model of CharToLineOffset (lean/TexSoupModel/Pos.lean) and of the reader, tied to the code '
            'by the correspondence run only',
            'correspondence harness (props/c13.py, lib_pos.py, common.canon_expr)',
+           'hand-written model of search_regex (lean/TexSoupModel/SearchRegex.lean: iterate the text view, report '
+           'position + start and text[start:start+length]), not exercised by a correspondence run of its own; the text '
+           'view it iterates is the one of lean/TexSoupModel/Nav.lean (correspondence run of C04)',
            'Python re module (clause iii)']
 ASSUMPTIONS = ['LF line structure (a line break is the single character U+000A)',
                'CPython str/bisect semantics', 'the model driver is the compiled form of the verified definitions',
